@@ -1,8 +1,172 @@
 import PyresampleModel.Model.C14
+import PyresampleModel.Proofs.Num
 
 /-
-  C14 — property theorems (stub: none yet).
+  C14 — property theorems for DynamicAreaDefinition.compute_domain (resolution and shape branches,
+  global extents, wrap-around).
 -/
 namespace PyresampleModel.C14
+
+/-! ### resolution branch -/
+
+/-- the x-axis facts of the resolution branch, for any corner interval and resolution `r > 0` -/
+theorem aux_axis_res (lo hi r : Rat) (hr : 0 < r) (hlh : lo ≤ hi) :
+    let a := (pyFloor ((lo - r / 2) / r) : Rat) * r
+    let b := (pyCeil ((hi + r / 2) / r) : Rat) * r
+    a ≤ lo - r / 2 ∧ hi + r / 2 ≤ b ∧
+    (∃ n : Int, 1 ≤ n ∧ (b - a) / r = n ∧ roundHalfEven ((b - a) / r) = n) := by
+  intro a b
+  have h1 := pyFloor_le ((lo - r / 2) / r)
+  have h2 := le_pyCeil ((hi + r / 2) / r)
+  have ha : a ≤ lo - r / 2 := by
+    have := (le_div_iff₀ hr).mp h1; exact this
+  have hb : hi + r / 2 ≤ b := by
+    have := (div_le_iff₀ hr).mp h2; exact this
+  refine ⟨ha, hb, ?_⟩
+  refine ⟨pyCeil ((hi + r / 2) / r) - pyFloor ((lo - r / 2) / r), ?_, ?_, ?_⟩
+  · have hlt : a < b := by linarith
+    have : (pyFloor ((lo - r / 2) / r) : Rat) < (pyCeil ((hi + r / 2) / r) : Rat) := by
+      by_contra hc
+      have hc' := not_lt.mp hc
+      have : b ≤ a := by
+        show (pyCeil ((hi + r / 2) / r) : Rat) * r ≤ (pyFloor ((lo - r / 2) / r) : Rat) * r
+        exact mul_le_mul_of_nonneg_right hc' hr.le
+      linarith
+    have : pyFloor ((lo - r / 2) / r) < pyCeil ((hi + r / 2) / r) := by exact_mod_cast this
+    omega
+  · show ((pyCeil ((hi + r / 2) / r) : Rat) * r - (pyFloor ((lo - r / 2) / r) : Rat) * r) / r = _
+    push_cast; field_simp
+  · have e : (b - a) / r = ((pyCeil ((hi + r / 2) / r) - pyFloor ((lo - r / 2) / r) : Int) : Rat) := by
+      show ((pyCeil ((hi + r / 2) / r) : Rat) * r - (pyFloor ((lo - r / 2) / r) : Rat) * r) / r = _
+      push_cast; field_simp
+    rw [e]
+    exact roundHalfEven_eq (by linarith) (by linarith)
+
+/-- **a requested resolution is honoured exactly**: for positive resolutions the frozen extent is
+aligned to multiples of the resolution, contains the data corners padded by half a pixel, has a
+positive integer size, and width·rx (height·ry) is exactly the extent span, i.e. the pixel size of
+the resulting area IS the requested resolution -/
+theorem res_branch (c : Corners) (rx ry : Rat) (hx : 0 < rx) (hy : 0 < ry)
+    (hcx : c.xmin ≤ c.xmax) (hcy : c.ymin ≤ c.ymax) :
+    let d := domainRes c rx ry
+    (∃ k : Int, d.x0 = k * rx) ∧ (∃ k : Int, d.x1 = k * rx) ∧ (∃ k : Int, d.y0 = k * ry) ∧ (∃ k : Int, d.y1 = k * ry) ∧
+    d.x0 ≤ c.xmin - rx / 2 ∧ c.xmax + rx / 2 ≤ d.x1 ∧ d.y0 ≤ c.ymin - ry / 2 ∧ c.ymax + ry / 2 ≤ d.y1 ∧
+    1 ≤ d.w ∧ 1 ≤ d.h ∧ (d.w : Rat) * rx = d.x1 - d.x0 ∧ (d.h : Rat) * ry = d.y1 - d.y0 := by
+  intro d
+  obtain ⟨ax, bx, nx, hnx1, hnx2, hnx3⟩ := aux_axis_res c.xmin c.xmax rx hx hcx
+  obtain ⟨ay, by_, ny, hny1, hny2, hny3⟩ := aux_axis_res c.ymin c.ymax ry hy hcy
+  refine ⟨⟨_, rfl⟩, ⟨_, rfl⟩, ⟨_, rfl⟩, ⟨_, rfl⟩, ax, bx, ay, by_, ?_, ?_, ?_, ?_⟩
+  · show 1 ≤ roundHalfEven _; rw [hnx3]; exact hnx1
+  · show 1 ≤ roundHalfEven _; rw [hny3]; exact hny1
+  · show (roundHalfEven _ : Rat) * rx = _
+    rw [hnx3]; exact ((div_eq_iff hx.ne').mp hnx2).symm
+  · show (roundHalfEven _ : Rat) * ry = _
+    rw [hny3]; exact ((div_eq_iff hy.ne').mp hny2).symm
+
+/-- **every data point maps to a valid pixel** (resolution branch): any x between the corner
+centres lands in a column index in `[0, width)` of the frozen grid -/
+theorem res_point_valid (c : Corners) (rx ry : Rat) (hx : 0 < rx) (hy : 0 < ry)
+    (hcx : c.xmin ≤ c.xmax) (hcy : c.ymin ≤ c.ymax) (x y : Rat)
+    (h1 : c.xmin ≤ x) (h2 : x ≤ c.xmax) (h3 : c.ymin ≤ y) (h4 : y ≤ c.ymax) :
+    let d := domainRes c rx ry
+    0 ≤ pyFloor ((x - d.x0) / rx) ∧ pyFloor ((x - d.x0) / rx) < d.w ∧
+    0 ≤ pyFloor ((d.y1 - y) / ry) ∧ pyFloor ((d.y1 - y) / ry) < d.h := by
+  intro d
+  obtain ⟨_, _, _, _, a1, a2, a3, a4, _, _, hw, hh⟩ := res_branch c rx ry hx hy hcx hcy
+  refine ⟨?_, ?_, ?_, ?_⟩
+  · rw [pyFloor_nonneg]; apply div_nonneg _ hx.le; linarith
+  · have : (x - d.x0) / rx < d.w := by
+      rw [div_lt_iff₀ hx]; linarith
+    have h := pyFloor_le ((x - d.x0) / rx)
+    have : ((pyFloor ((x - d.x0) / rx) : Int) : Rat) < (d.w : Rat) := by linarith
+    exact_mod_cast this
+  · rw [pyFloor_nonneg]; apply div_nonneg _ hy.le; linarith
+  · have : (d.y1 - y) / ry < d.h := by
+      rw [div_lt_iff₀ hy]; linarith
+    have h := pyFloor_le ((d.y1 - y) / ry)
+    have : ((pyFloor ((d.y1 - y) / ry) : Int) : Rat) < (d.h : Rat) := by linarith
+    exact_mod_cast this
+
+/-! ### shape branch -/
+
+/-- **a requested shape is honoured exactly, outermost points on outermost pixel centres**
+(both sizes ≥ 2, non-degenerate corner box): the pixel size is `(max − min)/(n − 1)`, the centre of
+column 0 is `xmin`, the centre of column W−1 is `xmax`, same for rows, and the extent contains the box -/
+theorem shape_branch (c : Corners) (height width : Nat) (hw : 2 ≤ width) (hh : 2 ≤ height)
+    (hcx : c.xmin < c.xmax) (hcy : c.ymin < c.ymax) :
+    let d := domainShape c height width
+    let px := (d.x1 - d.x0) / width
+    let py := (d.y1 - d.y0) / height
+    d.w = width ∧ d.h = height ∧ 0 < px ∧ 0 < py ∧
+    d.x0 + px / 2 = c.xmin ∧ d.x0 + ((width : Rat) - 1/2) * px = c.xmax ∧
+    d.y1 - py / 2 = c.ymax ∧ d.y1 - ((height : Rat) - 1/2) * py = c.ymin ∧
+    d.x0 < c.xmin ∧ c.xmax < d.x1 ∧ d.y0 < c.ymin ∧ c.ymax < d.y1 := by
+  intro d px py
+  have w1 : (1 : Rat) < width := by exact_mod_cast hw
+  have h1 : (1 : Rat) < height := by exact_mod_cast hh
+  have hw0 : (width : Rat) - 1 ≠ 0 := by linarith
+  have hh0 : (height : Rat) - 1 ≠ 0 := by linarith
+  have hwp : (0 : Rat) < width := by linarith
+  have hhp : (0 : Rat) < height := by linarith
+  have epx : px = (c.xmax - c.xmin) / ((width : Rat) - 1) := by
+    show (c.xmax + (c.xmax - c.xmin) / ((width : Rat) - 1) / 2 - (c.xmin - (c.xmax - c.xmin) / ((width : Rat) - 1) / 2)) / width = _
+    field_simp; ring
+  have epy : py = (c.ymax - c.ymin) / ((height : Rat) - 1) := by
+    show (c.ymax + (c.ymax - c.ymin) / ((height : Rat) - 1) / 2 - (c.ymin - (c.ymax - c.ymin) / ((height : Rat) - 1) / 2)) / height = _
+    field_simp; ring
+  have pxpos : 0 < px := by rw [epx]; apply div_pos <;> linarith
+  have pypos : 0 < py := by rw [epy]; apply div_pos <;> linarith
+  refine ⟨rfl, rfl, pxpos, pypos, ?_, ?_, ?_, ?_, ?_, ?_, ?_, ?_⟩
+  · rw [epx]; show c.xmin - (c.xmax - c.xmin) / ((width : Rat) - 1) / 2 + _ = _; ring
+  · rw [epx]; show c.xmin - (c.xmax - c.xmin) / ((width : Rat) - 1) / 2 + _ = _; field_simp; ring
+  · rw [epy]; show c.ymax + (c.ymax - c.ymin) / ((height : Rat) - 1) / 2 - _ = _; ring
+  · rw [epy]; show c.ymax + (c.ymax - c.ymin) / ((height : Rat) - 1) / 2 - _ = _; field_simp; ring
+  · have : 0 < (c.xmax - c.xmin) / ((width : Rat) - 1) / 2 := by apply div_pos (div_pos _ _) <;> linarith
+    show c.xmin - _ < c.xmin; linarith
+  · have : 0 < (c.xmax - c.xmin) / ((width : Rat) - 1) / 2 := by apply div_pos (div_pos _ _) <;> linarith
+    show c.xmax < c.xmax + _; linarith
+  · have : 0 < (c.ymax - c.ymin) / ((height : Rat) - 1) / 2 := by apply div_pos (div_pos _ _) <;> linarith
+    show c.ymin - _ < c.ymin; linarith
+  · have : 0 < (c.ymax - c.ymin) / ((height : Rat) - 1) / 2 := by apply div_pos (div_pos _ _) <;> linarith
+    show c.ymax < c.ymax + _; linarith
+
+/-- **global extents with a shape**: the two half-pixel formulas (`/ width` when placing the corner
+centres, `/ (width − 1)` when padding them again) are correct as a pair — the frozen x extent is
+exactly the area of use (west, east) -/
+theorem global_extents_shape (west east : Rat) (c : Corners) (height width : Nat) (hw : 2 ≤ width) :
+    (domainShape (fullExtentShape west east c width) height width).x0 = west ∧
+    (domainShape (fullExtentShape west east c width) height width).x1 = east := by
+  have w1 : (1 : Rat) < width := by exact_mod_cast hw
+  have hw0 : (width : Rat) - 1 ≠ 0 := by linarith
+  have hwp : (width : Rat) ≠ 0 := by linarith
+  constructor
+  · show west + (east - west) / width / 2 - (east - (east - west) / width / 2 - (west + (east - west) / width / 2)) / ((width : Rat) - 1) / 2 = west
+    field_simp; ring
+  · show east - (east - west) / width / 2 + (east - (east - west) / width / 2 - (west + (east - west) / width / 2)) / ((width : Rat) - 1) / 2 = east
+    field_simp; ring
+
+/-- **global extents with a resolution**: the frozen x extent contains the whole area of use -/
+theorem global_extents_res (west east : Rat) (c : Corners) (rx ry : Rat) (hx : 0 < rx) :
+    (domainRes (fullExtentRes west east c rx) rx ry).x0 ≤ west ∧
+    east ≤ (domainRes (fullExtentRes west east c rx) rx ry).x1 := by
+  constructor
+  · show (pyFloor ((west + rx / 2 - rx / 2) / rx) : Rat) * rx ≤ west
+    have := pyFloor_le ((west + rx / 2 - rx / 2) / rx)
+    have := (le_div_iff₀ hx).mp this; linarith
+  · show east ≤ (pyCeil ((east - rx / 2 + rx / 2) / rx) : Rat) * rx
+    have := le_pyCeil ((east - rx / 2 + rx / 2) / rx)
+    have := (div_le_iff₀ hx).mp this; linarith
+
+/-- `x % 360` lies in [0, 360) and differs from x by a multiple of 360 -/
+theorem wrap360_spec (x : Rat) : 0 ≤ wrap360 x ∧ wrap360 x < 360 ∧ ∃ k : Int, x = wrap360 x + 360 * k := by
+  have h1 := pyFloor_le (x / 360)
+  have h2 := lt_pyFloor_add_one (x / 360)
+  have a := (le_div_iff₀ (by norm_num : (0:Rat) < 360)).mp h1
+  have b := (div_lt_iff₀ (by norm_num : (0:Rat) < 360)).mp h2
+  refine ⟨by unfold wrap360; linarith, by unfold wrap360; linarith, pyFloor (x / 360), by unfold wrap360; ring⟩
+
+/-! non-vacuity -/
+example : domainRes ⟨1/2, 1/2, 7/2, 5/2⟩ 1 1 = ⟨0, 0, 4, 3, 4, 3⟩ := by decide +kernel
+example : domainShape ⟨1/2, 1/2, 7/2, 5/2⟩ 3 4 = ⟨0, 0, 4, 3, 4, 3⟩ := by decide +kernel
 
 end PyresampleModel.C14
